@@ -39,6 +39,27 @@ CHECKS = {
             "attempts must strictly shrink after a controller rejection, and blow-up problems must raise with an accurate prefix.",
             "Exploration; constants K_LOC=50, K_GLOB=20 tolerance units (worst observed values are in the evidence); problems are contractive along the "
             "integration direction so the problem's own amplification is ~1.", "4/C05"),
+    "C06": ("exploration", "runtime structural invariant of the live DenseOutput at quiescent points + behavioural oracle against exact solutions",
+            "After every integrate() return/raise of generated histories (single, split, queried between calls, non-terminal events, terminal stop "
+            "then continuation, injected failure then resume; both directions; all method families; Richardson wrappers) the DenseOutput must be "
+            "sorted, aligned, contiguous, cover exactly the recorded times, reproduce recorded states bit-for-bit, answer queries with the containing "
+            "piece, agree between scalar and array queries, have end slopes equal to f at the recorded states and stay within the cubic-Hermite bound.",
+            "Exploration; interior bound uses the manufactured solution's fourth derivative; KF09 (Richardson pieces from un-extrapolated sub-steps) open.", "4/C06"),
+    "C07": ("exploration", "runtime trace monitor: wrapped root_finder/handle_events + callback-sequenced event log, checked against true roots of the exact trajectory",
+            "Each reported event is checked for: state equal to the step interpolant at detection time (captured in situ), residual small relative to "
+            "the function's steepness and scale, time inside the step being processed, injective match to a true root of g along the exact solution "
+            "within the node/interpolation error, direction along the direction of integration, listing order, uniqueness, events_dict consistency.",
+            "Exploration; tangential roots and runs too inaccurate to identify crossings are excluded (counted).", "4/C07"),
+    "C08": ("exploration", "offline checker over the recorded grid + in-situ detection trace for attribution",
+            "Event functions g=s*(h-c) over 12 decades of s (component, linear, time, norm, derivative-dependent, steep) are evaluated on the recorded "
+            "rows after each run; every strict sign change over a recorded step in an accepted direction (and exact zeros on grid points between "
+            "opposite signs) must have a reported event of that function inside the step; >= 50 crossing steps per {direction}x{dense} cell.",
+            "Exploration; oracle needs no exact solution (it is exact with respect to what the detector sees).", "4/C08"),
+    "C09": ("exploration", "runtime oracle at the terminal stop and after continuation (segment + dense invariants, exact-trajectory roots, detection trace)",
+            "Mixes of terminal/non-terminal events, finite and +-infinite targets, both directions: last time = event time, last state on the surface "
+            "relative to steepness, nothing beyond, terminal event last and matching a true root with no certain earlier terminal root, status/success, "
+            "prefix invariants (C03/C06 oracles), then continuation (plain, to an intermediate time, with a second terminal event) re-checked.",
+            "Exploration; only 'certain' (isolated, transversal) true roots are required to be honoured; re-arming the same event at its root is out of scope.", "4/C09"),
 }
 
 NOT_YET = {}
